@@ -262,7 +262,17 @@ func (c *TermCtx) And(as ...*Term) *Term {
 	case 1:
 		return out[0]
 	}
+	sortByID(out)
 	return c.mk(&Term{Op: OpAnd, Sort: sortBool, Args: out})
+}
+
+// sortByID puts commutative arguments in a canonical order (copying first).
+func sortByID(ts []*Term) {
+	for i := 1; i < len(ts); i++ {
+		for j := i; j > 0 && ts[j-1].ID > ts[j].ID; j-- {
+			ts[j-1], ts[j] = ts[j], ts[j-1]
+		}
+	}
 }
 
 func dedup(ts []*Term) []*Term {
@@ -311,6 +321,7 @@ func (c *TermCtx) Or(as ...*Term) *Term {
 	case 1:
 		return out[0]
 	}
+	sortByID(out)
 	return c.mk(&Term{Op: OpOr, Sort: sortBool, Args: out})
 }
 
